@@ -1,5 +1,6 @@
 import CohdlVerif.Model.Sexp
 import CohdlVerif.Model.Coro
+import CohdlVerif.Model.CoroCompile
 
 /-
   C01 driver side: s-expression decoding of coroutine bodies (`Stmt`) and emitted state machines (`SM`),
@@ -10,6 +11,7 @@ import CohdlVerif.Model.Coro
     validate <stmt-sexp> | <sm-sexp>            -> ok <pairs> | fail <reason>
     reftrace <stmt-sexp> | <nouts> <in0> <in1> ..  -> per clock `o0,o1,..` joined by `;` (or `stuck`)
     smtrace  <sm-sexp>   | <nouts> <in0> <in1> ..  -> same for the state machine
+    compile  <stmt-sexp>                       -> the mirror's machine `(sm code0 code1 ..)` in the form of export_sm | reject
 -/
 namespace CohdlVerif.C01
 
@@ -107,6 +109,17 @@ def smTraceStr (sm : SM) (nouts : Nat) (ins : List Nat) : String := Id.run do
     out := out.push (showOuts st.2)
   return ";".intercalate out.toList
 
+/-- canonical text of `Code` / `SM`: exactly the form `export_sm` (harness/c01.py) prints for the real IR -/
+def codeStr : Code → String
+  | .nil => "nil"
+  | .act a k => s!"(act {a} {codeStr k})"
+  | .trans t k => s!"(trans {t} {codeStr k})"
+  | .ite c t e k => s!"(ite {c} {codeStr t} {codeStr e} {codeStr k})"
+
+def smStr (sm : SM) : String := "(sm " ++ " ".intercalate (sm.codes.map codeStr) ++ ")"
+
+def compileStr (p : Stmt) : String := if rejected p then "reject" else smStr (compileSM p)
+
 def splitBar (toks : List String) : List String × List String :=
   (toks.takeWhile (· ≠ "|"), (toks.dropWhile (· ≠ "|")).drop 1)
 
@@ -117,6 +130,10 @@ def handle (args : List String) : String :=
       match (Sexp.parse (" ".intercalate a)).bind stmtOf, (Sexp.parse (" ".intercalate b)).bind smOf with
       | some p, some sm => validate p sm
       | _, _ => "bad-op"
+  | "compile" :: rest =>
+      match (Sexp.parse (" ".intercalate rest)).bind stmtOf with
+      | some p => compileStr p
+      | none => "bad-op"
   | "reftrace" :: rest =>
       let (a, b) := splitBar rest
       match (Sexp.parse (" ".intercalate a)).bind stmtOf, b.mapM String.toNat? with
